@@ -14,7 +14,7 @@ RecursionError cannot take the driver down.  Required outcome:
                                     ("No trees in data source", "No trees available at requested location ...",
                                     "No character data in data source")
     <schema>.malformed_tree         every returned tree satisfies the C03 arborescence predicate (specs.trees)
-    <schema>.dimensions.rows|cols   a returned matrix has the number of rows / columns the document declares
+    <schema>.dimensions.rows.fewer|rows.more|cols   a returned matrix has the number of rows / columns the document declares
                                     (PHYLIP: first line; NEXUS: the DIMENSIONS statement of the same DATA/CHARACTERS
                                     block, read by the independent scanner specs.docscan -- only for documents the
                                     scanner finds regular; NTAX of a separate TAXA block is NOT compared with the
@@ -66,13 +66,13 @@ DOCS = [
      "#NEXUS\nBEGIN TREES;\n TRANSLATE 1 A, 2 'B b', 3 C;\n TREE * t = [&U] (1,(2,3)x:0.5);\nEND;\n", ["TreeList", "DataSet"], {}),
     ("nexus:data", "nexus",
      "#NEXUS\nBEGIN DATA;\n DIMENSIONS NTAX=3 NCHAR=4;\n FORMAT DATATYPE=DNA GAP=- MISSING=?;\n MATRIX\n A ACGT\n B A-G?\n C {AC}CGT\n ;\nEND;\n",
-     ["DataSet", "DnaMatrix"], {}),
+     ["DataSet", "DnaMatrix", "DataSet+ns"], {}),
     ("nexus:taxa-chars-sets", "nexus",
      "#NEXUS\nBEGIN TAXA;\n DIMENSIONS NTAX=2;\n TAXLABELS A B;\nEND;\nBEGIN CHARACTERS;\n DIMENSIONS NCHAR=4;\n FORMAT DATATYPE=DNA;\n MATRIX\n A ACGT\n B ACGA\n ;\nEND;\n"
-     "BEGIN SETS;\n CHARSET c1 = 1-2 4;\nEND;\n", ["DataSet", "DnaMatrix"], {}),
+     "BEGIN SETS;\n CHARSET c1 = 1-2 4;\nEND;\n", ["DataSet", "DnaMatrix", "DataSet+ns"], {}),
     ("nexus:interleaved", "nexus",
      "#NEXUS\nBEGIN DATA;\n DIMENSIONS NTAX=2 NCHAR=6;\n FORMAT DATATYPE=DNA INTERLEAVE;\n MATRIX\n A ACG\n B AAG\n\n A TTT\n B TTA\n ;\nEND;\n",
-     ["DataSet", "DnaMatrix"], {}),
+     ["DataSet", "DnaMatrix", "DataSet+ns"], {}),
     ("nexus:title-link", "nexus",
      "#NEXUS\nBEGIN TAXA;\n TITLE one;\n DIMENSIONS NTAX=2;\n TAXLABELS A B;\nEND;\nBEGIN TAXA;\n TITLE two;\n DIMENSIONS NTAX=2;\n TAXLABELS C D;\nEND;\n"
      "BEGIN TREES;\n LINK TAXA = two;\n TREE t = (C,D);\nEND;\n", ["DataSet"], {}),
@@ -132,9 +132,12 @@ def read_one(item):
         elif route == "Tree":
             prod = Tree.get(data=text, schema=schema, **kw)
             trees, mats = [prod], []
-        elif route == "DataSet":
+        elif route in ("DataSet", "DataSet+ns"):
             if schema in ("phylip", "fasta"):
                 kw["data_type"] = item.get("data_type", "dna")
+            if route == "DataSet+ns":
+                # the caller supplies the namespace (attached-namespace mode): declared dimensions bind all the same
+                kw["taxon_namespace"] = dendropy.TaxonNamespace()
             prod = DataSet.get(data=text, schema=schema, **kw)
             trees = [t for tl in prod.tree_lists for t in tl._trees]
             mats = list(prod.char_matrices)
@@ -161,13 +164,13 @@ def read_one(item):
             if decl is not None and len(mats) == 1:
                 rows, lens = M.dims(mats[0])
                 if rows != decl[0]:
-                    return {"outcome": "dimensions.rows", "detail": "document declares %d sequences, matrix has %d" % (decl[0], rows)}
+                    return {"outcome": "dimensions.rows.%s" % ("fewer" if rows < decl[0] else "more"), "detail": "document declares %d sequences, matrix has %d" % (decl[0], rows)}
                 bad = [x for x in lens if x != decl[1]]
                 if bad:
                     return {"outcome": "dimensions.cols", "detail": "document declares %d characters, a row has %d" % (decl[1], bad[0])}
         elif schema == "nexus":
             decl = D.nexus_declared_dims(text)
-            if decl is not None and len(decl) == len(mats) and route == "DataSet":
+            if decl is not None and len(decl) == len(mats) and route in ("DataSet", "DataSet+ns"):
                 pairs = list(zip(decl, mats))
             elif decl is not None and len(decl) == 1 and len(mats) == 1:
                 pairs = [(decl[0], mats[0])]
@@ -176,7 +179,8 @@ def read_one(item):
             for d, m in pairs:
                 rows, lens = M.dims(m)
                 if d["ntax"] is not None and rows != d["ntax"]:
-                    return {"outcome": "dimensions.rows", "detail": "%s block declares NTAX=%d, matrix has %d rows" % (d["block"], d["ntax"], rows)}
+                    return {"outcome": "dimensions.rows.%s" % ("fewer" if rows < d["ntax"] else "more"),
+                            "detail": "%s block declares NTAX=%d, matrix has %d rows" % (d["block"], d["ntax"], rows)}
                 if d["nchar"] is not None:
                     bad = [x for x in lens if x != d["nchar"]]
                     if bad:
@@ -367,7 +371,7 @@ def t2(ctx):
             tally[oc] = tally.get(oc, 0) + 1
             if oc == "internal_error":
                 mon, detail = "%s.internal_error.%s@%s" % (it["schema"], val["type"], val["site"]), "%s: %s" % (val["type"], val["detail"])
-            elif oc in ("malformed_tree", "dimensions.rows", "dimensions.cols"):
+            elif oc in ("malformed_tree", "dimensions.rows.fewer", "dimensions.rows.more", "dimensions.cols"):
                 mon, detail = "%s.%s" % (it["schema"], oc), val["detail"]
             elif it["kind"] == "valid" and oc != "ok":
                 mon, detail = "%s.valid_rejected" % it["schema"], "%s %s" % (oc, val["detail"])
@@ -402,7 +406,7 @@ def replay(ctx, rec):
     oc = val["outcome"]
     if oc == "internal_error":
         return ob != "%s.internal_error.%s@%s" % (w["schema"], val["type"], val["site"])
-    if oc in ("malformed_tree", "dimensions.rows", "dimensions.cols"):
+    if oc in ("malformed_tree", "dimensions.rows.fewer", "dimensions.rows.more", "dimensions.cols"):
         return ob != "%s.%s" % (w["schema"], oc)
     if ob.endswith(".valid_rejected"):
         return oc == "ok"
